@@ -235,9 +235,10 @@ static int trace(Scn& s, long maxk) {
     bool fired = c14::fired;
     long owned = s.owned_blocks();
     long after = c14::live_blocks;
+    bool valid = s.valid();
     s.destroy(); purge_caches();
     long leak = c14::live_blocks - base;
-    std::cout << "trace k=" << k << " ok=" << ok << " leaked=" << leak << " owned=" << owned << " delta=" << (after - before) << " ev";
+    std::cout << "trace k=" << k << " ok=" << ok << " leaked=" << leak << " owned=" << owned << " delta=" << (after - before) << " valid=" << valid << " ev";
     for (int i = 0; i < nev; ++i) std::cout << " " << c14::evs[i].t << (c14::evs[i].layer == c14::L_NEW ? "n" : "g") << c14::evs[i].size;
     std::cout << "\n";
     if (!fired) break;
@@ -293,6 +294,7 @@ static int weight(Scn& s, long steps) {
   s.call();
   unsigned long long total = Weightwatch_Traits::weight - w0;
   std::string r0 = s.result(); s.destroy(); purge_caches();
+  { try { Weightwatch ww(1ULL << 60, too_fat); } catch (...) {} }   // the watcher's own first-use allocation
   std::cout << "scenario " << s.name << " weight total=" << total << "\n";
   long positions = 0, leaks = 0, invalid = 0, unusable = 0, argchg = 0, strongk = 0, abandoned = 0;
   if (steps < 1) steps = 1;
